@@ -95,4 +95,25 @@ CLAIMS.update({
                 'paired under contract',
     },
 })
+CLAIMS['C01'] = {
+    'text': 'dispatch() of both dispatchers (one contract), for every request text (fully symbolic string; json.loads is an '
+            'assumed contract with three outcomes: a JSON value, JSONDecodeError, plain ValueError), every registry, '
+            'max_batch_size and middleware/handler configuration under A-user: it never raises; it returns None or '
+            '(text, codes) where the document put into the text is a well-formed response object or a NON-EMPTY array; '
+            'for a single response the codes tuple is (code or 0,); non-JSON text is answered by exactly one -32700 '
+            'response with id null and nothing is executed. Every path of the real body is explored (15 + 13 paths), '
+            'callees by contract (Request/BatchRequest.from_json, _handle_request, BatchResponse.__init__, to_json).',
+    'note': 'assumed: json.loads/json.dumps contracts; BatchResponse.to_json wire form; the lemma that the strict '
+            'BatchResponse built from an accepted batch finds no duplicate ids; duplicate-id semantics of _add_ids '
+            '(bounded stand-in, exhaustive up to 4 ids); element-wise well-formedness of the ARRAY members is not proved '
+            '(only non-emptiness and that each member is the wire form of a handler result); A-user for methods, '
+            'middlewares (return UNSET or a well-formed Response) and error handlers',
+}
+CLAIMS['C02']['note'] = ('batch level: dispatch() is under contract (C01) with the filter-map structure summarised, but the '
+                         'per-element exactly-once accounting inside a batch is the sequential composition of the proved '
+                         'per-element contract (paper argument); duplicate-id semantics assumed + bounded stand-in')
+CLAIMS['C03']['note'] = ('Method.bind is an assumed contract (binds(method, params) uninterpreted) until C04; -32700 for '
+                         'non-JSON text and the error constructor are proved (dispatch, JsonRpcError.__init__); the '
+                         '-32600 clause for invalid documents is covered by the from_json contracts (C06) plus dispatch '
+                         'never raising, not yet as an explicit postcondition; user callables follow A-user')
 NOT_CLAIMED = {}
